@@ -10,4 +10,7 @@ EXPLANATION = (
     "only by the bounded differential (stand-in with an independent re-encoder).")
 ASSUMED = ["spec functions == google.protobuf (bounded differential only)", "A-FOLD"]
 from pyvc.check import standin_bounded
-BOUNDED = [standin_bounded("C02")]
+from pyvc.check import external_bounded
+BOUNDED = [standin_bounded("C02"),
+           external_bounded("deep-schema:C02", "standin.deep", ["C02", "--n", "150"], ["C02", "--n", "800"],
+                            "nested schema (containers of oneof-carrying / field-less messages, two-level lazy parents, float maps, Duration JSON strings); observation-based oracle")]
